@@ -453,7 +453,7 @@ def shapes(law, chan, case):
 
 # shapes whose defect has been repaired in rsass: they no longer excuse a failing case (a case that has such a shape and fails
 # is attributed to its other listed shapes, or reported as `no-listed-feature`)
-RETIRED = {'source|continuation-in-double-quotes', 'token|private-use-before-hex-or-blank'}
+RETIRED = {'source|continuation-in-double-quotes', 'token|private-use-before-hex-or-blank', 'source|hex-escape-terminated-by-tab'}
 
 
 def coarse(obs):
